@@ -122,7 +122,7 @@ def parse_attributes(attrs, xml=True):
     # filter out empty items, eg:
     # i18n:attributes="value msgid; name msgid2;"
     # would result in 3 items where the last one is empty
-    attrs = [spec for spec in attrs.split(";") if spec]
+    attrs = [spec for spec in attrs.split(";") if spec.strip()]
 
     for spec in attrs:
         if ',' in spec:
